@@ -628,10 +628,7 @@ func (d *Driver) Abort() {
 		}
 	}
 	d.wr, d.wt = nil, nil
-	for _, s := range d.servers {
-		s.Close()
-	}
-	d.servers = nil
+	d.servers = nil // the servers are shared by all behaviours of the process (sim.go)
 }
 
 func sortedKeys(m map[string]int) []string {
